@@ -529,16 +529,20 @@ func (p *Pool) Get() interface{} {
 	p.mu.Unlock()
 	k := Choose(n+1, "pool.Get")
 	p.mu.Lock()
-	defer p.mu.Unlock()
+	var x interface{}
 	if k < len(p.items) {
-		x := p.items[k]
+		x = p.items[k]
 		p.items = append(p.items[:k], p.items[k+1:]...)
-		return x
+		p.mu.Unlock()
+	} else {
+		p.mu.Unlock()
+		if p.New != nil {
+			x = p.New()
+		}
 	}
-	if p.New != nil {
-		return p.New()
-	}
-	return nil
+	// another goroutine may run between obtaining a pooled object and its first use
+	Yield("pool.Got")
+	return x
 }
 
 func (p *Pool) Put(x interface{}) {
